@@ -47,6 +47,10 @@ def run(chk, repo: Repo):
     chk.rule("C07-R6", "shipped 2-D convolution pair: the adjoint-by-flipped-kernel shortcut is used only where padding commutes with transposition "
                        "(zero and periodic extension) and mirrors the even-size crop", floor=3)
     _r6(chk, repo)
+    chk.rule("C07-R8", "forward and adjoint are functions of their argument: no computation path of the model layer is selected by a tolerance comparator "
+                       "(a `nearly equal to the previous input` shortcut maps nearby inputs to one output: the operator is no longer linear)", floor=2)
+    from ..tolerant import tolerant_shortcut_rule
+    tolerant_shortcut_rule(chk, repo, "C07-R8", ("cuqi/model/", "cuqi/operator/"))
     chk.rule("C07-R7", "forward/adjoint closures of models and test problems do not capture an iteration variable late", floor=3)
     from ..latebind import latebind_rule
     latebind_rule(chk, repo, "C07-R7", ("cuqi/model/", "cuqi/testproblem/", "cuqi/operator/"))
